@@ -57,15 +57,15 @@ TRAINER_PATHS = {
     "early_stopping_patience": ["trainer_config.early_stopping.patience"],
 }
 SENTINELS = {
-    "train_labels_path": ["tr_A.slp", "x/tr_B.slp"], "val_labels_path": ["va_A.slp", "x/va_B.slp"], "test_file_path": ["t.slp", "t.mp4"],
+    "train_labels_path": ["tr_A.slp", "./x//tr_B.slp"], "val_labels_path": ["va_A.slp", "x/./va_B.slp"], "test_file_path": ["t.slp", "t.mp4"],
     "provider": ["VideoReader", "OtherReader"], "user_instances_only": [False], "data_pipeline_fw": ["litdata", "torch_dataset_np_chunks"],
-    "np_chunks_path": ["np/a", "np/b"], "litdata_chunks_path": ["ld/a", "ld/b"], "use_existing_chunks": [True], "chunk_size": [7, 250],
+    "np_chunks_path": ["np/a", "./np/b/", "np//c"], "litdata_chunks_path": ["ld/a", "ld/b/", "/abs/./ld"], "use_existing_chunks": [True], "chunk_size": [7, 250],
     "delete_chunks_after_training": [False], "is_rgb": [True], "scale": [0.5, 2.0], "max_height": [128, 333], "max_width": [96, 512], "crop_hw": [(160, 160), (64, 96)],
     "min_crop_size": [32, None], "use_augmentations_train": [True],
     "init_weight": ["xavier"], "pretrained_backbone_weights": ["bb.ckpt", "bb2.ckpt"], "pretrained_head_weights": ["hd.ckpt", "hd2.ckpt"],
     "batch_size": [1, 16], "shuffle_train": [False], "num_workers": [0, 2, 5], "ckpt_save_top_k": [0, 3, -1], "ckpt_save_last": [False], "trainer_num_devices": [1, 2],
     "trainer_accelerator": ["cpu", "gpu"], "enable_progress_bar": [True], "steps_per_epoch": [3, 50], "max_epochs": [1, 7], "seed": [0, 42], "use_wandb": [True],
-    "save_ckpt": [True], "save_ckpt_path": ["ck/a", "ck/b"], "resume_ckpt_path": ["r.ckpt", "r2.ckpt"], "wandb_entity": ["ent", "ent2"], "wandb_project": ["proj", "proj2"],
+    "save_ckpt": [True], "save_ckpt_path": ["ck/a", "./ck/b/"], "resume_ckpt_path": ["r.ckpt", "./x//r2.ckpt"], "wandb_entity": ["ent", "ent2"], "wandb_project": ["proj", "proj2"],
     "wandb_name": ["run", "run2"], "wandb_api_key": ["KEY123", "KEY456"], "wandb_mode": ["offline", "online"], "wandb_resume_prv_runid": ["abc", "def"],
     "wandb_group_name": ["grp", "grp2"], "optimizer": ["AdamW"], "learning_rate": [1e-4, 0.05], "amsgrad": [True], "early_stopping": [True],
     "early_stopping_min_delta": [0.0, 1e-3, 0.5], "early_stopping_patience": [0, 9],
@@ -254,7 +254,8 @@ def gen_cases(ctx):
                 yield {"kind": "builder", "data": {}, "model": {"backbone_config": preset, "head_configs": head}, "trainer": {}}
     # lr_scheduler forms
     for sch in ["step_lr", "reduce_lr_on_plateau", {"step_lr": {"step_size": 5, "gamma": 0.5}}, {"reduce_lr_on_plateau": {"patience": 3, "factor": 0.3, "min_lr": 1e-6}},
-                {"step_lr": None, "reduce_lr_on_plateau": {"cooldown": 2}}]:
+                {"step_lr": None, "reduce_lr_on_plateau": {"cooldown": 2}}, {"reduce_lr_on_plateau": None, "step_lr": {"step_size": 3}},
+                {"step_lr": {"gamma": 0.25}, "reduce_lr_on_plateau": None}]:
         if mine():
             yield {"kind": "builder", "data": {}, "model": dict(base_model), "trainer": {"lr_scheduler": sch}}
     # augmentation lists, exhaustive
